@@ -43,13 +43,16 @@ type wireRec struct {
 }
 
 type recCase struct {
-	ID    int                      `json:"id"`
-	Combo string                   `json:"combo"` // peer/version/suite/dir, e.g. go/tls12/c02f/c2s
-	N     int                      `json:"n"`
-	RSeed int64                    `json:"rseed"` // seed of this case's concrete choices (chunk bytes, flipped bits, cut offsets)
-	Wire  []wireRec                `json:"wire"`
-	Acts  []map[string]interface{} `json:"acts"`
-	ExpP  struct {
+	ID    int    `json:"id"`
+	Combo string `json:"combo"` // peer/version/suite/dir, e.g. go/tls12/c02f/c2s
+	N     int    `json:"n"`
+	// PadAuth false: SSL 3.0 block cipher, padding not authenticated (Record.tla, PadAuth): only
+	// "prefix of what was sent" and "ends in an error" are decisive
+	PadAuth *bool                    `json:"padauth"`
+	RSeed   int64                    `json:"rseed"` // seed of this case's concrete choices (chunk bytes, flipped bits, cut offsets)
+	Wire    []wireRec                `json:"wire"`
+	Acts    []map[string]interface{} `json:"acts"`
+	ExpP    struct {
 		Clean   int  `json:"clean"`
 		RealErr bool `json:"realerr"`
 	} `json:"expP"`
@@ -711,15 +714,16 @@ func recordOne(c recCase, seed int64) {
 				}
 				return t
 			}
+			padAuth := c.PadAuth == nil || *c.PadAuth
 			why := ""
 			switch {
 			case !obs.PrefixOK:
 				why = "not-a-prefix"
-			case obs.Delivered > cum(c.ExpP.Clean):
+			case padAuth && obs.Delivered > cum(c.ExpP.Clean):
 				why = "delivered-past-tamper"
 			case obs.Class == "none":
 				why = "no-error"
-			case c.ExpP.RealErr && obs.Class == "eof":
+			case padAuth && c.ExpP.RealErr && obs.Class == "eof":
 				why = "tamper-reported-as-eof"
 			}
 			if why != "" {
@@ -734,7 +738,7 @@ func recordOne(c recCase, seed int64) {
 				if cb.peer == "go" && cb.dir == "s2c" && c.ExpM.Err == "eof" && obs.Class == "ueof" {
 					okClass = true // crypto/tls as the receiver reports a lost tail as unexpected EOF
 				}
-				if obs.Delivered != cum(c.ExpM.Deliver) || !okClass {
+				if padAuth && (obs.Delivered != cum(c.ExpM.Deliver) || !okClass) {
 					res.Drift = fmt.Sprintf("%s wire %s: delivered %d bytes / error class %s, mechanism model says %d bytes / %s",
 						c.Combo, wireText(c.Wire), obs.Delivered, obs.Class, cum(c.ExpM.Deliver), c.ExpM.Err)
 				}
